@@ -915,6 +915,12 @@ func verifDiff(c verifCase) any {
 					return map[string]any{"error": "restart: " + err.Error()}
 				}
 			}
+			// drain the pooled connections that died with the old listener (the wrapper keeps 8 idle ones; a
+			// pipeline that meets only dead connections in all its retries fails): the clients re-dial here
+			for k := 0; k < 12; k++ {
+				ws[i].Ping()
+				raws[i].Ping(context.Background())
+			}
 			restarted[i] = true
 			steps = append(steps, map[string]any{"skip": "restart"})
 			continue
